@@ -127,7 +127,7 @@ def run(ctx: common.Ctx) -> None:
         "SIGKILL stop paths are executed but not judged (no code can run)",
         "every daemon is started with --timeout 900 (idle shutdown) as a safety net against leaked daemons; the idle-timeout stop path uses --timeout 1",
         "zero-length messages are not part of the framing workload (read_bytes reports them like end-of-stream by design)",
-        "watchdogs: 20 s per hostile socket operation, 60 s per status request; a daemon alive but refusing 3 status requests 10 s apart is 'unresponsive'",
+        "watchdogs: 20 s per hostile socket operation; a daemon that is alive but serves neither of two consecutive well-formed status requests (30 s and 15 s watchdogs; a status request normally takes milliseconds) is 'unresponsive'",
     ]
     n_a_nontriv = 0
     n_b_nontriv = 0
@@ -233,9 +233,11 @@ def run(ctx: common.Ctx) -> None:
             ctx.extra["stray_processes_killed"] = kill_strays(wd)
     ctx.extra["part_a_nontrivial"] = n_a_nontriv
     ctx.extra["part_b_nontrivial"] = n_b_nontriv
-    ctx.floor_nontrivial = int(0.4 * n_seq) + (300 if quick else 3000) * (1 if scale >= 1 else 0)
-    ctx.floor_evaluations = int(1.0 * n_seq) + (40000 if quick else 600000) * (1 if scale >= 1 else 0)
-    if n_a_nontriv < int(0.4 * n_seq):
+    # floors at roughly 35-45 % of what the unchanged tree yields (quick: ~480 + ~2950 distinct non-trivial, ~86 000 evaluations)
+    full = scale >= 1
+    ctx.floor_nontrivial = n_seq + ((1000 if quick else 20000) if full else 0)
+    ctx.floor_evaluations = n_seq + ((40000 if quick else 600000) if full else 0)
+    if n_a_nontriv < n_seq:
         ctx.inconc("part (a) decided too few fault probes")
         ctx.floor_nontrivial = 10 ** 9
     if n_b_nontriv < 100:
@@ -308,6 +310,8 @@ def handle_seq(ctx: common.Ctx, t: dict[str, Any], res: dict[str, Any], pending:
                         ev["cache_mode"], ev["verbose"], ev["faults_survived_before"])
         if p.get("died") or p.get("unresponsive"):
             restart_after.append(ev["i"])
+        if not p.get("unresponsive") and not p.get("died") and any("timed out" in x for x in p.get("barrier_failures") or []):
+            ctx.inconc("status request hit the watchdog once and was served on retry")
         keys = F.classify_event(ev)
         for key, what in keys:
             if key.startswith("later-request-affected") and key.endswith("output-differs"):
